@@ -436,6 +436,10 @@ pub fn test_dict_pair(c: &DictPair, ctx: &mut CaseCtx) -> Result<(), String> {
         .map_err(|_| "panic in a fresh thread".to_string())?;
         let _ = lint_b;
         ctx.class("second_dictionary_after_first_on_one_thread");
+        {
+            use harper_core::Dictionary;
+            ctx.class_if(a.word_count() == b.word_count() && !same_words && here.len() < c.text.split(' ').count(), "two_dictionaries_of_one_size_with_other_words");
+        }
         if here != elsewhere {
             return Err(format!(
                 "a thread that first parsed {:?} with dictionary {:?} and then with {:?} reports {} for the second; a fresh thread reports {}",
@@ -480,7 +484,7 @@ pub fn dict_pair_strategy() -> BoxedStrategy<DictPair> {
     const VOCAB: [&str; 10] = ["frobnix", "Qwertzu", "markdownlint", "harperls", "O'Brienish", "naïvetéx", "zzyzxq", "McFlurble", "plugh", "xyzzyish"];
     (
         proptest::collection::vec((0usize..VOCAB.len(), 0u8..4), 1..4),
-        0u8..6,
+        0u8..8,
         any::<u16>(),
         0u8..4,
         0u8..4,
@@ -494,6 +498,8 @@ pub fn dict_pair_strategy() -> BoxedStrategy<DictPair> {
                 1 => after.reverse(),
                 2 | 3 => after[k] = recase(&after[k], c1),
                 4 => after[k] = after[k].replace('\'', "’"),
+                // one word swapped for another: as many words as before
+                6 | 7 => after[k] = recase(VOCAB[(pick as usize * 7 + 3) % VOCAB.len()], c1),
                 _ => after.push(recase(VOCAB[(pick as usize * VOCAB.len()) >> 16], c2)),
             }
             let mut text = String::from("We like");
@@ -515,7 +521,8 @@ pub fn run(run: &mut Run) {
     run.prop("dictionary_change_detection", n, dict_pair_strategy, test_dict_pair);
     run.require_class("dictionary_change_detection", "compared_equal_linter_kept", (n / 10) as u64);
     run.require_class("dictionary_change_detection", "differ_in_capitalisation_only", (n / 10) as u64);
-    run.rule = "histories of 1-40 ops (SetConfig(G-CONFIG) | Lint(pool doc, language in {plain, markdown, typst, html, rust})) on one long-lived LintGroup; the pool repeats 1-3 generated clauses alone, at other offsets, at the end vs the middle, inside Markdown emphasis and inside a comment so that cache keys recur; after every Lint the result must equal (==, order included) that of a freshly built LintGroup with the current config. Plus: a batch linted by 8 threads (own linters, rotated order) and by one linter moved across threads equals the sequential run; two fresh processes give byte-identical output; dictionary_change_detection: pairs of user word lists (same / reordered / one entry recapitalised / apostrophe variant / one more word) merged with the curated dictionary as harper-ls does — whenever the two compare equal (the test on which the server keeps its linter) linting a text that uses the words must give the same result with either; an eviction run with >10,000 distinct clauses. Non-trivial = a clause recurs (cache hit) after a config change or in another language.".into();
+    run.require_class("dictionary_change_detection", "two_dictionaries_of_one_size_with_other_words", (n / 10) as u64);
+    run.rule = "histories of 1-40 ops (SetConfig(G-CONFIG) | Lint(pool doc, language in {plain, markdown, typst, html, rust})) on one long-lived LintGroup; the pool repeats 1-3 generated clauses alone, at other offsets, at the end vs the middle, inside Markdown emphasis and inside a comment so that cache keys recur; after every Lint the result must equal (==, order included) that of a freshly built LintGroup with the current config. Plus: a batch linted by 8 threads (own linters, rotated order) and by one linter moved across threads equals the sequential run; two fresh processes give byte-identical output; dictionary_change_detection: pairs of user word lists (same / reordered / one entry recapitalised / apostrophe variant / one word swapped for another / one more word) merged with the curated dictionary as harper-ls does — whenever the two compare equal (the test on which the server keeps its linter) linting a text that uses the words must give the same result with either, and a thread that parsed with the first and then with the second reports for the second what a fresh thread reports; an eviction run with >10,000 distinct clauses. Non-trivial = a clause recurs (cache hit) after a config change or in another language.".into();
     let n = run.n(1_500, 30_000);
     run.prop("op_sequences", n, || seq_strategy(40), test_sequence);
     run.require_class("op_sequences", "cache_hit_after_config_change", (n / 4) as u64);
